@@ -781,6 +781,27 @@ fn family_convert() {
         rep.cases += 1;
         if !matches!(Value::from(x), Value::Float(f) if f.to_bits() == (x as f64).to_bits()) { rep.fail(&["C17"], "from_f32.exact", &format!("Value::from({x}f32)"), &format!("{:?}", Value::from(x)), "exact widening"); }
     }
+    // maps and lists built from Rust collections keep EVERY entry / element, whatever its kind (incl. None), and come back unchanged
+    for v in pool() {
+        let expect: BTreeMap<String, Value> = [("k".to_string(), v.clone()), ("z".to_string(), Value::Int(1))].into_iter().collect();
+        let hm: std::collections::HashMap<String, Value> = expect.clone().into_iter().collect();
+        rep.cases += 4;
+        let from_h = Value::from(hm.clone());
+        if !same_value(&from_h, &Value::Map(expect.clone())) { rep.fail(&["C17"], "from_hash.sources", &format!("Value::from(HashMap{{k: {v}, z: i1}})"), &format!("{from_h:?}"), "Map with both entries"); }
+        let from_b = Value::from(expect.clone());
+        if !same_value(&from_b, &Value::Map(expect.clone())) { rep.fail(&["C17"], "from_btree.sources", &format!("Value::from(BTreeMap{{k: {v}, z: i1}})"), &format!("{from_b:?}"), "Map with both entries"); }
+        match std::collections::HashMap::<String, Value>::try_from(Value::Map(expect.clone())) {
+            Ok(m) if m.len() == 2 && same_value(&m["k"], &v) => {}
+            r => rep.fail(&["C17"], "try_hash_value.ok", &format!("HashMap::<String,Value>::try_from({{k: {v}, z: i1}})"), &format!("{:?}", r.map(|m| m.len())), "Ok with both entries"),
+        }
+        let from_v = Value::from(vec![v.clone(), Value::Int(1)]);
+        if !same_value(&from_v, &Value::Vec(vec![v.clone(), Value::Int(1)])) { rep.fail(&["C17"], "from_vec.elements", &format!("Value::from(vec![{v}, i1])"), &format!("{from_v:?}"), "Vec with both elements in order"); }
+        let opt: std::collections::HashMap<String, Option<Value>> = [("k".to_string(), Some(v.clone())), ("n".to_string(), None)].into_iter().collect();
+        rep.cases += 1;
+        let from_o = Value::from(opt);
+        let expect_o: BTreeMap<String, Value> = [("k".to_string(), v.clone()), ("n".to_string(), Value::None)].into_iter().collect();
+        if !same_value(&from_o, &Value::Map(expect_o)) { rep.fail(&["C17"], "from_hash.sources", &format!("Value::from(HashMap{{k: Some({v}), n: None}})"), &format!("{from_o:?}"), "Map with k and n: none"); }
+    }
     rep.cases += 1;
     match Vec::<u8>::try_from(Value::from(vec![1u8, 2, 255])) { Ok(v) if v == vec![1, 2, 255] => {}, r => rep.fail(&["C17"], "vec.roundtrip", "Vec::<u8>::try_from(Value::from(vec![1,2,255]))", &format!("{r:?}"), "Ok([1,2,255])") }
     rep.finish();
